@@ -415,7 +415,10 @@ def observe_ic(wn, lexid, sc):
             if p in freq:
                 freq[p][ss[i].id] = sc['weights'][i][0] / sc['weights'][i][1]
     else:
-        freq = wn.ic.compute(sc['corpus'], w, distribute_weight=sc['distribute'],
+        # the corpus is documented as any iterable of words: supply it as a list, a tuple or a one-shot generator
+        how = len(sc['corpus']) % 3
+        corpus = list(sc['corpus']) if how == 0 else tuple(sc['corpus']) if how == 1 else (t for t in sc['corpus'])
+        freq = wn.ic.compute(corpus, w, distribute_weight=sc['distribute'],
                              smoothing=sc['smoothing'][0] / sc['smoothing'][1])
     out = {'node': [freq.get(fold(g['pos'][i]), {}).get(ss[i].id) for i in range(n)],
            'total': {p: freq[p][None] for p in IC_POS},
